@@ -97,6 +97,9 @@ func Generate(profile string, seed uint64, tier string) (*Scenario, error) {
 	case "C12c":
 		sc.Property = "C12"
 		genC12c(g, sc, tier)
+	case "C14":
+		sc.Property = "C14"
+		genC14(g, sc, tier, seed)
 	case "C16":
 		sc.Property = "C16"
 		genC16(g, sc, tier)
@@ -418,6 +421,8 @@ func Execute(sc *Scenario) *Verdict {
 		return RunHTTPScenario(sc)
 	case "C16":
 		return RunSecScenario(sc)
+	case "C14":
+		return RunRestartScenario(sc)
 	case "C08", "C10", "C17", "C18":
 		return RunJobScenario(sc)
 	case "C05", "C02c", "C12c", "C13c", "C19c":
@@ -1281,5 +1286,84 @@ func genC16(g *G, sc *Scenario, tier string) {
 			sc.Ops = append(sc.Ops, Op{K: "req", N: g.Intn(1000), S: g.Pick(kinds), DS: g.Pick([]string{"a", "a", "ab", "b"})})
 		}
 	}
+	sc.Ops = append(sc.Ops, Op{K: "restart"})
+}
+
+// genC14: hub-level histories of data, dataset-, job- and security-management operations with a
+// restart at a random position (quick) or, in the thorough tier, at the position given by the seed
+// index so that every position of a history is covered by consecutive seeds.
+func genC14(g *G, sc *Scenario, tier string, seed uint64) {
+	hg := g
+	if tier == "thorough" {
+		// same history for 16 consecutive seeds, restart position = seed mod 16
+		hg = NewG((seed/16)*7919 + 13)
+	}
+	c := hg.baseStoreCfg(tier)
+	c.Datasets = []string{"dsA", "dsB"}
+	c.PNested, c.PRestart, c.PTxn = 0, 0, 0.15
+	c.NoPlainObjects = true
+	sc.Datasets = c.Datasets
+	m := NewModel()
+	m.Create("dsA")
+	m.Create("dsB")
+	m.Create("out")
+	sc.Datasets = append(sc.Datasets, "out")
+	var ops []Op
+	n := hg.Range(6, 15)
+	jobN := 0
+	for i := 0; i < n; i++ {
+		x := hg.r.Float64()
+		switch {
+		case x < 0.30:
+			ds := hg.Pick(c.Datasets)
+			ents := hg.batch(c, m, ds)
+			m.Batch(ds, ents)
+			ops = append(ops, Op{K: "batch", DS: ds, Ents: ents})
+		case x < 0.36:
+			ops = append(ops, Op{K: hg.Pick([]string{"createDataset", "deleteDataset"}), DS: hg.Pick([]string{"dsX", "dsY"})})
+		case x < 0.40:
+			ops = append(ops, Op{K: "renameDataset", DS: "dsX", DS2: "dsY"})
+		case x < 0.52:
+			jobN++
+			id := fmt.Sprintf("job%d", jobN%3)
+			trig := map[string]any{"triggerType": "cron", "jobType": hg.Pick([]string{"incremental", "fullsync"}), "schedule": "@every 8760h"}
+			if hg.P(0.6) {
+				var onErr []any
+				if hg.P(0.7) {
+					onErr = append(onErr, map[string]any{"errorHandler": "reRun", "maxRetries": hg.Range(0, 3), "retryDelay": hg.PickInt([]int{0, 5, 30, 120})})
+				}
+				if hg.P(0.5) {
+					onErr = append(onErr, map[string]any{"errorHandler": "log", "maxItems": hg.Range(0, 5)})
+				}
+				trig["onError"] = onErr
+			}
+			cfg := map[string]any{"id": id, "title": id, "source": map[string]any{"Type": "DatasetSource", "Name": hg.Pick(c.Datasets)}, "sink": map[string]any{"Type": "DatasetSink", "Name": "out"},
+				"paused": hg.P(0.5), "batchSize": hg.Range(1, 5), "triggers": []any{trig}}
+			ops = append(ops, Op{K: "addJob", M: cfg})
+		case x < 0.58:
+			ops = append(ops, Op{K: hg.Pick([]string{"pauseJob", "resumeJob"}), S: fmt.Sprintf("job%d", hg.Intn(3))})
+		case x < 0.61:
+			ops = append(ops, Op{K: "deleteJob", S: fmt.Sprintf("job%d", hg.Intn(3))})
+		case x < 0.70:
+			ops = append(ops, Op{K: "run", S: fmt.Sprintf("job%d", hg.Intn(3)), DS: hg.Pick([]string{"incremental", "fullsync"})})
+		case x < 0.78:
+			ops = append(ops, Op{K: "registerClient", S: hg.Pick([]string{"client1", "client2"})})
+		case x < 0.81:
+			ops = append(ops, Op{K: "deleteClient", S: hg.Pick([]string{"client1", "client2"})})
+		case x < 0.90:
+			ops = append(ops, Op{K: "setAcl", S: hg.Pick([]string{"client1", "client2"}), A: hg.aclSet()})
+		case x < 0.93:
+			ops = append(ops, Op{K: "deleteAcl", S: hg.Pick([]string{"client1", "client2"})})
+		case x < 0.98:
+			ops = append(ops, Op{K: "addProvider", S: hg.Pick([]string{"prov1", "prov2"})})
+		default:
+			ops = append(ops, Op{K: "deleteProvider", S: hg.Pick([]string{"prov1", "prov2"})})
+		}
+	}
+	pos := g.Intn(len(ops) + 1)
+	if tier == "thorough" {
+		pos = int(seed%16) % (len(ops) + 1)
+	}
+	sc.Ops = append(append(append([]Op{}, ops[:pos]...), Op{K: "restart"}), ops[pos:]...)
 	sc.Ops = append(sc.Ops, Op{K: "restart"})
 }
